@@ -3,5 +3,7 @@ CONSTANTS
   MaxLayout = 3
   MaxFailures = 2
   DrainOnSuccess = FALSE
+  SkipUnchanged = FALSE
+  Strategy = "MASTER"
 INVARIANTS NoWindow
 CHECK_DEADLOCK FALSE
